@@ -144,6 +144,11 @@ func (queue *FileQueue) getIndex(flag uint32, key []byte) []byte {
 }
 
 func (queue *FileQueue) checkFile() error {
+	// Start has already started the sync goroutine: its After hook may call Put while the tmp file is replayed,
+	// and both move Offset
+	queue.putLock.Lock()
+	defer queue.putLock.Unlock()
+
 	filePath := queue.path()
 	isExist, err := FileUtilsIsExist(filePath)
 	if err != nil {
